@@ -639,6 +639,37 @@ func (h *concH) directed() {
 		againstRegen(func(g *cgor, s *sessions.Session, i int) {
 			g.safe("LogIn", func() { s.LogIn(&user{ID: "u0"}, false, dummy()) })
 		})
+	case "login-leak":
+		// LogIn takes the per-ID lock of the session's current ID around RegenerateID. While LogIn and
+		// RegenerateID run concurrently on one object every ID the session ever had is collected; afterwards
+		// each of them is presented once. A per-ID lock that was taken and never released blocks that Start.
+		a, b, _ := h.twoHandles(g0)
+		g1, g2 := h.newGor(), h.newGor()
+		g1.done, g2.done = 1, 1
+		var ids [2][]string
+		var phase sync.WaitGroup
+		hammer := func(g *cgor, slot int, f func(resp *respWriter)) {
+			defer phase.Done()
+			h.loop(n, func(int) {
+				resp := dummy()
+				g.safe("LogIn/RegenerateID", func() { f(resp) })
+				if v, set, _ := cookieOf(resp); set {
+					ids[slot] = append(ids[slot], v)
+				}
+			})
+		}
+		h.spawn(g0, func() {
+			phase.Add(2)
+			go hammer(g1, 0, func(resp *respWriter) { a.LogIn(&user{ID: "u0"}, false, resp) })
+			go hammer(g2, 1, func(resp *respWriter) { b.RegenerateID(resp) })
+			phase.Wait()
+			for _, id := range append(ids[0], ids[1]...) {
+				if h.stopped() {
+					break
+				}
+				startAs(g0, 0, id)
+			}
+		})
 	case "id-destroy":
 		// per round: two requests hold the session; one destroys it while the other changes its ID.
 		g1, g2 := h.newGor(), h.newGor()
